@@ -6,6 +6,9 @@ package grace
 // Higher-order contract: the action f is invoked exactly once, first; "done" (retry == false, err == nil) is reported
 // only if that invocation returned no error and either changed nothing or no grace period is configured.
 
+//@ track (*realGraceExpectations).Observe as observe
+//@ track (*realGraceExpectations).Expect as expect
+
 //@ func (*realGraceExpectations).SatisfiedExpectations
 //@ props C07
 //@ ensures unsatisfied_has_positive_wait: (result0 ==> result1 == 0) && (!result0 ==> result1 > 0)
@@ -21,6 +24,13 @@ package grace
 //@ ensures retry_on_error: result2 != nil ==> result0
 //@ ensures done_means_action_succeeded: !result0 && result2 == nil ==> #f.ret1 == nil && (!#f.ret0 || graceSeconds == 0)
 //@ ensures modified_means_wait: result2 == nil && #f.ret0 && graceSeconds != 0 ==> result0
+// C06 (an API error never corrupts the wait): the grace record is the only memory of "a change was made, the wait is
+// running". It is forgotten only by the call that reports the wait as over, it is (re)started only by a call whose
+// action changed something, and a call whose action failed leaves it exactly as it was - otherwise the next clean call
+// finds no record and reports a wait as over that has not elapsed.
+//@ ensures {C06} error_leaves_record_alone: result2 != nil ==> #observe == 0 && #expect == 0
+//@ ensures {C06} forgotten_only_when_done: #observe > 0 ==> !result0 && result2 == nil
+//@ ensures {C06} started_only_by_a_change: #expect > 0 ==> #f.ret0 && #f.ret1 == nil && graceSeconds != 0
 
 //@ func RunWithGraceSeconds
 //@ props C04 C06 C07
